@@ -20,6 +20,16 @@ a local / parameter / field declared f32/f64) is skipped; `#[cfg(test)]` items, 
 modules declared under `#[cfg(test)]` are skipped; `const`/`static` initialisers are evaluated by the
 compiler and are skipped.
 
+GUARDS.  Next to the raw operations, the multiset of GUARDS of each tracked function is extracted and tied in
+the same way: every `if` / `while` / match-guard condition containing a comparison (or `.contains(`), every
+early exit (`return ..`, `break`, `continue`) together with the condition it sits under, every `?`, and every
+call of min / max / clamp / checked_* / saturating_* / wrapping_* / try_from / try_into / get(..) / get_mut /
+ensure_* / validate* / check* (normalised statement text).  A removed or weakened guard, a changed comparison
+operator or operand, a dropped `?`, a clamp put in place of a rejection change this multiset although the raw
+operations are untouched, and are reported like a raw-operation change.  Tracked functions: those with at
+least one raw operation / index / unwrap, pre-check helpers (ensure_* / validate* / check* / all_* / *_is_* /
+*_are_*) and callers of ensure_* / validate* / check_* guards.
+
 Each occurrence is normalised to (file, enclosing fn path, kind, op, normalised statement text) -- no line
 numbers -- and the per-function multisets are compared with the committed reviewed table
 translate/arith_scope.json, which stores for each function the reviewed multiset and a status
@@ -173,6 +183,11 @@ FLOAT_METHODS = {"to_f32", "to_f64", "sqrt", "sin", "cos", "tan", "atan2", "hypo
                  "to_degrees", "sin_cos", "as_f32", "as_f64"}
 ASSERTS = {"assert", "assert_eq", "assert_ne", "debug_assert", "debug_assert_eq", "debug_assert_ne"}
 INT_TYPES = {"u8", "u16", "u32", "u64", "u128", "usize", "i8", "i16", "i32", "i64", "i128", "isize"}
+GUARD_CALL = re.compile(r"^(min|max|clamp|checked_\w+|saturating_\w+|wrapping_\w+|overflowing_\w+|try_from|try_into|get_mut|get|ensure_\w+|validate\w*|check\w*|all_\w+_are_\w+)$")
+STRONG_GUARD_CALL = re.compile(r"^(ensure_\w+|validate\w*|check_\w+|all_\w+_are_\w+)$")
+PRECHECK_FN = re.compile(r"^(ensure_|validate|check|all_)|_is_|_are_")
+CMP_OPS = {"==", "!=", "<=", ">="}
+CTRL = ("if", "else", "while", "for", "match", "loop", "let")
 # generated pure getters: the range was validated when the table was parsed (C01's read shapes)
 GETTER = re.compile(r"^self\.data\.read_(at|array)\((range\.start|range)\)\.unwrap\(\)$")
 TEST_ATTR = re.compile(r"^(test|cfg\(test\)|cfg\(all\(test\b.*|bench)$")
@@ -214,6 +229,7 @@ class FileScan:
         self.rel = rel
         self.toks = lex(src)
         self.funcs = {}          # path -> list of (kind, op, text)
+        self.guards = {}         # path -> list of (what, text)
         self.test_mods = []      # names of `#[cfg(test)] mod x;`
         self.float_fields = set()
         self.nonfloat_fields = set()
@@ -396,6 +412,9 @@ class FileScan:
                     floats.add(T[q][1])
         floats -= ints
         self.floats = floats
+        gsites = self.guards.setdefault(key, [])
+        ctx = [""]     # block headers (innermost last)
+        arms = [None]  # the current match arm pattern of each block
         # statement segments
         seg = []
         depth = 0  # paren/bracket depth inside the current segment
@@ -435,12 +454,107 @@ class FileScan:
                     depth = max(0, depth - 1)
                 if t in (";", "{", "}") or (depth == 0 and t in (",", "=>")):
                     self.flush(seg, sites)
+                    self.flush_guards(seg, t, gsites, ctx, arms)
+                    if t == "{":
+                        header = join([T[x] for x in seg]) if seg else (arms[-1] or "")
+                        ctx.append(header)
+                        arms.append(None)
+                    elif t == "}":
+                        if len(ctx) > 1:
+                            ctx.pop()
+                            arms.pop()
+                    elif t == "=>":
+                        arms[-1] = join([T[x] for x in seg]) + " =>"
+                    elif t == ",":
+                        arms[-1] = None
                     seg, depth = [], 0
                     i += 1
                     continue
             seg.append(i)
             i += 1
         self.flush(seg, sites)
+        self.flush_guards(seg, ";", gsites, ctx, arms)
+
+    def has_cmp(self, toks):
+        gen = 0
+        for q, (k, t, _) in enumerate(toks):
+            if k != "op":
+                if k == "id" and t == "contains" and q > 0 and toks[q - 1][1] == ".":
+                    return True
+                continue
+            if t in CMP_OPS:
+                return True
+            if t == "<":
+                if q > 0 and toks[q - 1][1] == "::":
+                    gen += 1
+                else:
+                    return True
+            elif t == ">":
+                if gen > 0:
+                    gen -= 1
+                else:
+                    return True
+        return False
+
+    def flush_guards(self, idxs, term, gsites, ctx, arms):
+        """guards of one statement segment: conditions with a comparison, early exits with the condition they
+        sit under, `?`, and calls of the clamp / checked / validation families"""
+        if not idxs:
+            return
+        T = self.toks
+        toks = [T[x] for x in idxs]
+        first = toks[0][1] if toks[0][0] == "id" else None
+        if first in ("use", "const", "static"):
+            return
+        text = None
+
+        def seg_text():
+            return join(toks)
+
+        # the condition this statement sits under
+        def under():
+            if arms[-1]:
+                return arms[-1]
+            for h in reversed(ctx):
+                if h and h.split(" ", 1)[0].split("(")[0] in CTRL or (h and h.endswith("=>")):
+                    return h
+            return "fn"
+
+        # conditions
+        cond = None
+        if term == "{":
+            if first in ("if", "while"):
+                cond = toks[1:]
+            elif first == "else" and len(toks) > 1 and toks[1][1] == "if":
+                cond = toks[2:]
+        if cond is not None and self.has_cmp(cond):
+            gsites.append((first if first != "else" else "if", join(cond)))
+        if term == "=>":
+            d = 0
+            for q, (k, t, _) in enumerate(toks):
+                if k == "op" and t in ("(", "["):
+                    d += 1
+                elif k == "op" and t in (")", "]"):
+                    d -= 1
+                elif k == "id" and t == "if" and d == 0 and q > 0:
+                    c2 = toks[q + 1:]
+                    if self.has_cmp(c2):
+                        gsites.append(("match-if", join(c2)))
+                    break
+        # early exits
+        if first in ("return", "break", "continue"):
+            gsites.append((first, seg_text() + "  @ " + under()))
+        # `?` and guard calls
+        n = len(toks)
+        for q, (k, t, _) in enumerate(toks):
+            if k == "op" and t == "?" and q > 0 and (toks[q - 1][0] in ("id", "num") or toks[q - 1][1] in (")", "]", "?")):
+                gsites.append(("?", seg_text()))
+            elif k == "id" and q + 1 < n and toks[q + 1][1] == "(" and GUARD_CALL.match(t):
+                prev = toks[q - 1][1] if q > 0 else None
+                if t == "get" and (q + 2 >= n or toks[q + 2][1] == ")"):
+                    continue  # BigEndian::get(): a value getter
+                if prev in (".", "::") or STRONG_GUARD_CALL.match(t):
+                    gsites.append(("call " + t, seg_text()))
 
     def is_float_operand_left(self, idxs, p):
         """idxs[p] is an operator; is the operand ending at idxs[p-1] evidently a float?"""
@@ -641,6 +755,10 @@ def is_float_lit(t):
 
 # -------------------------------------------------------------------------------------- inventory
 
+GUARDS = {}
+ALL_GUARDS = {}
+
+
 def scope_files(repo):
     files = set()
     for pat in SCOPE:
@@ -674,13 +792,27 @@ def inventory(repo):
             test_files.add(os.path.join(stem, m + ".rs"))
             test_files.add(os.path.join(stem, m) + os.sep)
     inv = {}
+    ginv = {}
+    all_guards = {}
     for f, sc in scans.items():
         if sc.whole_file_test or f in test_files or any(f.startswith(t) for t in test_files if t.endswith(os.sep)):
             continue
         for path, sites in sc.funcs.items():
-            if not sites:
+            gs = sc.guards.get(path, [])
+            ac = all_guards.setdefault(f"{f} :: {path}", {})
+            for g in gs:
+                ac[g] = ac.get(g, 0) + 1
+            fn_name = path.split("fn ")[-1]
+            tracked = bool(sites) or bool(PRECHECK_FN.search(fn_name)) or any(g[0].startswith("call ") and STRONG_GUARD_CALL.match(g[0][5:]) for g in gs)
+            if not tracked:
                 continue
             key = f"{f} :: {path}"
+            gc = ginv.setdefault(key, {})
+            for g in gs:
+                gc[g] = gc.get(g, 0) + 1
+            if not sites:
+                inv.setdefault(key, {})
+                continue
             cnt = {}
             for s in sites:
                 cnt[s] = cnt.get(s, 0) + 1
@@ -690,6 +822,9 @@ def inventory(repo):
     out = {}
     for key, cnt in inv.items():
         out[key] = sorted([list(s) + [c] for s, c in cnt.items()])
+    global GUARDS, ALL_GUARDS
+    ALL_GUARDS = {key: sorted([list(g) + [c] for g, c in cnt.items()]) for key, cnt in all_guards.items()}
+    GUARDS = {key: sorted([list(g) + [c] for g, c in cnt.items()]) for key, cnt in ginv.items()}
     return out, problems, len(scans)
 
 
@@ -763,9 +898,11 @@ def main():
                 status, note = rs
             elif old and old.get("sites") == inv[key] and old.get("status") != "explored:unreviewed-bulk":
                 status, note = old["status"], old.get("note", "")
+            elif not inv[key]:
+                status, note = "benign:guard-only", "no raw trapping operation: tracked for its guards (pre-check helper or caller of an ensure_* / validate* / check_* guard)"
             else:
                 status, note = "explored:unreviewed-bulk", ""
-            e = {"status": status, "sites": inv[key]}
+            e = {"status": status, "sites": inv[key], "guards": GUARDS.get(key, [])}
             if note:
                 e["note"] = note
             out["functions"][key] = e
@@ -783,6 +920,16 @@ def main():
     for key in sorted(set(inv) | set(table["functions"])):
         cur = inv.get(key)
         old = table["functions"].get(key)
+        if cur is None and key in ALL_GUARDS:
+            # the function still exists but no longer qualifies for tracking: it lost its raw operations or
+            # the guard call that made it tracked
+            o = {tuple(g[:2]): g[2] for g in old.get("guards", [])}
+            c = {tuple(g[:2]): g[2] for g in ALL_GUARDS[key]}
+            gone = [f"{k[0]} `{k[1]}`" for k in sorted(o) if o[k] > c.get(k, 0)]
+            new = [f"{k[0]} `{k[1]}`" for k in sorted(c) if c[k] > o.get(k, 0)]
+            lost = "; ".join(f"{s[0]} `{s[1]}` in `{s[2]}`" for s in old["sites"][:3])
+            unparsed.append(f"{key} [{old['status']}]: GUARD multiset changed / tracked operations gone; GONE guards: {' | '.join(gone) or '-'} ; NEW guards: {' | '.join(new) or '-'}" + (f" ; raw operations no longer present: {lost}" if lost else ""))
+            continue
         if cur is None:
             unparsed.append(f"{key}: function with reviewed raw operations is gone from the source (renamed / removed / no raw operation left): re-review")
             continue
@@ -797,6 +944,15 @@ def main():
             removed = [f"{k[0]} `{k[1]}` in `{k[2]}`" for k in sorted(o) if o[k] > c.get(k, 0)]
             unparsed.append(f"{key} [{old['status']}]: raw-operation multiset changed; NEW: {' | '.join(added) or '-'} ; GONE: {' | '.join(removed) or '-'}")
             continue
+        og = old.get("guards", [])
+        cg = GUARDS.get(key, [])
+        if og != cg:
+            o = {tuple(g[:2]): g[2] for g in og}
+            c = {tuple(g[:2]): g[2] for g in cg}
+            added = [f"{k[0]} `{k[1]}`" for k in sorted(c) if c[k] > o.get(k, 0)]
+            removed = [f"{k[0]} `{k[1]}`" for k in sorted(o) if o[k] > c.get(k, 0)]
+            unparsed.append(f"{key} [{old['status']}]: GUARD multiset changed (the raw operations are unchanged: a guard was removed, weakened or replaced); GONE: {' | '.join(removed) or '-'} ; NEW: {' | '.join(added) or '-'}")
+            continue
         tied += 1
         st = old["status"]
         cls = st.split(":", 1)[0] if st != "explored:unreviewed-bulk" else st
@@ -810,7 +966,8 @@ def main():
         detail[e["status"]] = detail.get(e["status"], 0) + 1
     samples = [
         {"scope-inventory": {"files": nfiles, "functions_with_raw_ops": len(inv), "tied_to_reviewed_table": tied,
-                             "functions_by_status": by_status, "sites_by_status": by_status_sites, "sites_by_kind": kinds}},
+                             "functions_by_status": by_status, "sites_by_status": by_status_sites, "sites_by_kind": kinds,
+                             "guards_tied": sum(g[2] for gs in GUARDS.values() for g in gs)}},
         {"statuses": dict(sorted(detail.items(), key=lambda kv: -kv[1])[:40])},
     ]
     for want in ("read-fonts/src/tables/variations.rs :: impl DeltaSetIndexMap::fn get",
